@@ -67,6 +67,20 @@ fn shapes() -> Vec<Shape> {
         add('A', array(t(n), object(None, vec![field("a", t('I'))])));
         add('A', array(t(n), array(t('I'), t('I'))));
     }
+    add('B', binop("|", E::Bool(true), t('B'))); add('B', binop("&", E::Bool(false), t('B')));
+    add('B', binop("|", t('B'), E::Bool(true))); add('B', binop("&", t('F'), t('B')));
+    add('I', binop("*", int(0), t('I'))); add('I', binop("*", t('I'), int(0))); add('I', binop("+", int(0), t('I'))); add('I', binop("-", t('I'), t('I')));
+    add('B', binop("==", t('I'), t('I'))); add('N', if_(E::Bool(true), t('I'), Some(t('I')))); add('N', while_(E::Bool(false), t('I')));
+    for n in ['0', '2'] {
+        add('A', array(t(n), idx(var("go"), int(1))));            // user-defined get: a call, once per element
+        add('A', array(t(n), binop("+", var("go"), int(1))));     // user-defined operator: a call
+        add('A', array(t(n), mcall(var("go"), "m0", vec![])));
+        add('A', array(t(n), binop("+", var("v"), int(1))));
+    }
+    // the size is read once, first - even when the initialiser assigns the variable it was read from
+    add('A', block(vec![set("v", int(3)), array(var("v"), block(vec![set("v", binop("-", var("v"), int(1))), t('I')]))]));
+    add('A', block(vec![let_("n", int(2)), array(var("n"), block(vec![set("n", binop("+", var("n"), int(1))), t('I')]))]));
+    add('A', block(vec![set("v", int(2)), array(var("v"), block(vec![set("v", int(0)), var("v")]))]));
     add('I', idx(t('A'), t('Z')));
     add('I', idx(t('O'), t('I')));
     add('N', idxset(t('A'), t('Z'), t('I')));
@@ -209,35 +223,55 @@ fn programs(e: &E) -> Vec<(&'static str, Vec<E>)> {
     out
 }
 
+fn expansions(e: &E, base: &[Shape], f: &mut dyn FnMut(E)) {
+    let mut slots = vec![];
+    tracer_slots(e, &mut slots);
+    for (i, k) in slots.iter().enumerate() {
+        if *k == '-' { continue }
+        for s in base.iter().filter(|s| s.kind == *k) {
+            let mut n = i as isize;
+            f(replace_nth(e, &mut n, &s.e));
+        }
+    }
+}
+
+fn evaluate(ctx: &mut Ctx, e: &E, all_placements: bool) {
+    for (i, (placement, prog)) in programs(e).into_iter().enumerate() {
+        // placements: top-discarded, function-discarded, top-kept, function-kept
+        if !all_placements && (i == 1 || i == 2) { continue }
+        semantic_case(ctx, "U-ORDER", &prog);
+        ctx.count("programs", 1);
+        ctx.count(&format!("placement:{}", placement), 1);
+    }
+}
+
 pub fn run(ctx: &mut Ctx) {
     let depth = if ctx.quick() { 3 } else { 4 };
     let base = shapes();
+    // levels 1 .. depth-1 are materialised (the last of them is a few hundred MB at depth 4); the
+    // deepest level is streamed from its predecessor and never held in memory
     let mut level: Vec<E> = base.iter().map(|s| s.e.clone()).collect();
     for d in 1..=depth {
         ctx.stage(&format!("U-ORDER(d={})", d));
-        let mut next: Vec<E> = vec![];
-        for e in &level {
-            if ctx.take().is_some() {
-                for (placement, prog) in programs(e) {
-                    semantic_case(ctx, "U-ORDER", &prog);
-                    ctx.count("programs", 1);
-                    ctx.count(&format!("placement:{}", placement), 1);
-                }
+        if d < depth || depth == 1 {
+            let mut next: Vec<E> = vec![];
+            for e in &level {
+                if ctx.take().is_some() { evaluate(ctx, e, true) }
+                if d + 1 < depth { expansions(e, &base, &mut |x| next.push(x)) }
             }
-            if d < depth {
-                let mut slots = vec![];
-                tracer_slots(e, &mut slots);
-                for (i, k) in slots.iter().enumerate() {
-                    if *k == '-' { continue }
-                    for s in base.iter().filter(|s| s.kind == *k) {
-                        let mut n = i as isize;
-                        next.push(replace_nth(e, &mut n, &s.e));
-                    }
-                }
+            ctx.note(&format!("U-ORDER(d={}): {} expressions x 4 placements", d, level.len()));
+            if d + 1 < depth { level = next }
+        } else {
+            let mut n = 0u64;
+            for e in &level {
+                let mut pending: Vec<E> = vec![];
+                expansions(e, &base, &mut |x| pending.push(x));
+                let all = !ctx.quick();
+                for x in pending { n += 1; if ctx.take().is_some() { evaluate(ctx, &x, all) } }
+                if ctx.capped { break }
             }
+            ctx.note(&format!("U-ORDER(d={}): {} expressions x 4 placements (streamed)", d, n));
         }
-        ctx.note(&format!("U-ORDER(d={}): {} expressions x 4 placements", d, level.len()));
-        level = next;
         if ctx.capped { break }
     }
 }
